@@ -239,6 +239,11 @@ Section SpecWithAlnum.
         end
     end.
 
+  (** the first token of a RICH-STRING is an ordinary string: it does not look like a here-document
+      start and is not the unquoted marker :> *)
+  Definition plain_for_rich (t : stoken) : bool :=
+    negb (starts_with_here_doc_prefix (render_tok t)) && (tok_quoted t || negb (text_eqb [58; 62] (chars_tok t))).
+
   (** What a rich string must give: an error, or a string; [lo..hi] is where the rest of the source
       may begin afterwards (at or after the end of the string's source, before the next token,
       not beyond the end of the line). *)
@@ -306,7 +311,7 @@ Section SpecWithAlnum.
     flat_map (fun i => match i with LTok t _ => [t] | LCont _ _ => [] end) (sl_items l).
   Definition wf_slist (l : slist) : bool :=
     wf_litems (sl_items l) (match sl_paren l with None => true | Some _ => false end) &&
-    negb (existsb (fun t => text_eqb (render_tok t) [41]) (list_tokens l)) &&
+    negb (existsb (fun t => negb (tok_quoted t) && text_eqb (chars_tok t) [41]) (list_tokens l)) &&
     match sl_paren l with
     | None => true
     | Some r => no_nl r && match r with [] => true | c :: _ => is_sep_no_nl c end
@@ -470,7 +475,12 @@ Definition check_case (c : case) : bool * bool :=
         | None => true
         | Some (lead, r) =>
             text_eqb src (lead ++ render_rich r) && forallb is_sep lead && wf_rich r &&
-            match k, r with KString, RPlain _ _ => true | KString, _ => false | KRich, _ => true end
+            match k, r with
+            | KString, RPlain _ _ => true
+            | KString, _ => false
+            | KRich, RPlain ((t, _) :: _) _ => plain_for_rich t
+            | KRich, _ => true
+            end
         end,
         match st with
         | None => true
